@@ -87,3 +87,18 @@ package ecs
 //@   requires t.len <= t.cap && uint64(t.len) + uint64(by) <= 1<<31
 //@   ensures  room: uint64(t.cap) >= uint64(t.len) + uint64(by) && t.len == old(t.len)
 //@   ensures  rows: forall r uint32 :: r < t.len ==> rowEnt(t)[r] == old(rowEnt(t)[r])
+
+// Statistics of a table (C19): size, capacity and the documented memory products; the in-place
+// update computes exactly what a fresh computation does.
+
+//@ func (*table).Stats
+//@   serves C19
+//@   ensures  fields: result.Size == int(t.len) && result.Capacity == int(t.cap) && result.Memory == int(t.cap)*memPerEntity && result.MemoryUsed == int(t.len)*memPerEntity
+//@   ensures  bounded: t.len <= t.cap ==> result.Size <= result.Capacity
+//@   modifies nothing
+
+//@ func (*table).UpdateStats
+//@   serves C19
+//@   requires stats != nil
+//@   ensures  fields: stats.Size == int(t.len) && stats.Capacity == int(t.cap) && stats.Memory == int(t.cap)*memPerEntity && stats.MemoryUsed == int(t.len)*memPerEntity
+//@   modifies stats.Size, stats.Capacity, stats.Memory, stats.MemoryUsed
